@@ -538,6 +538,126 @@ pub fn gen(g: &mut Gen) {
         gen_case(g, &shape, false);
     }
     gen_large_cases(g);
+    gen_float_cases(g);
+    gen_names_cases(g);
+}
+
+// ---- f64 "degenerate data": NaN, signed zeros, infinities, repeated and all-equal elements
+
+fn flip_zero(tok: &str) -> String {
+    match tok {
+        "0" => "-0".to_string(),
+        "-0" => "0".to_string(),
+        other => other.to_string(),
+    }
+}
+
+fn gen_float_cases(g: &mut Gen) {
+    const POOL: [&str; 10] = ["nan", "0", "-0", "inf", "-inf", "1", "1", "2", "-1", "0.5"];
+    let shapes: Vec<Vec<usize>> = vec![vec![], vec![1], vec![3], vec![2, 2], vec![2, 3], vec![3, 3], vec![3, 2, 2]];
+    for lens in shapes {
+        let shape = named(g, &lens);
+        let d = lens.len();
+        let n: usize = lens.iter().product();
+        let mut datasets: Vec<(&str, Vec<String>)> = vec![];
+        let mut with_nan: Vec<String> = (0..n).map(|_| g.rng.pick(&POOL).to_string()).collect();
+        let pos = g.rng.below(n);
+        with_nan[pos] = "nan".into();
+        datasets.push(("one_or_more_nan", with_nan));
+        datasets.push(("all_nan", vec!["nan".to_string(); n]));
+        datasets.push(("zeros_infs", (0..n).map(|_| g.rng.pick(&["0", "-0", "inf", "-inf", "1"]).to_string()).collect()));
+        datasets.push(("all_equal", vec!["1".to_string(); n]));
+        datasets.push(("all_zero", vec!["0".to_string(); n]));
+        datasets.push(("repeated", (0..n).map(|i| ["2", "2", "-1"][i % 3].to_string()).collect()));
+        for (what, data) in datasets {
+            let line = |sh: &[(&str, usize)], dt: &[String]| -> String {
+                format!("{} {}", show_shape(sh), if dt.is_empty() { "-".to_string() } else { dt.join(",") })
+            };
+            g.op(format!("@ f {}", line(&shape, &data)));
+            g.count(&format!("float.{}", what));
+            // the same object on both sides, and a clone
+            g.op(format!("fcmp {} rel=self", line(&shape, &data)));
+            g.op(format!("fcmp {} rel=clone", line(&shape, &data)));
+            g.count_n("float.self_and_clone", 2);
+            // another tensor: identical tokens, signed zeros flipped, one cell changed, renamed
+            g.op(format!("fcmp {} rel=other", line(&shape, &data)));
+            let flipped: Vec<String> = data.iter().map(|t| flip_zero(t)).collect();
+            g.op(format!("fcmp {} rel=other", line(&shape, &flipped)));
+            let mut changed = data.clone();
+            changed[g.rng.below(n)] = "7".into();
+            g.op(format!("fcmp {} rel=other", line(&shape, &changed)));
+            g.count_n("float.other", 3);
+            if d >= 1 {
+                let mut ren = shape.clone();
+                ren[0].0 = "zz";
+                g.op(format!("fcmp {} rel=other", line(&ren, &data)));
+            }
+            // every reordered copy, and one with the signed zeros flipped
+            for perm in permutations(d) {
+                let idxs: Vec<u64> = (0..n as u64).collect();
+                let (nl, order) = reordered_data(&lens, &idxs, &perm);
+                let nshape: Vec<(&str, usize)> = perm.iter().zip(nl.iter()).map(|(&p, &l)| (shape[p].0, l)).collect();
+                let nd: Vec<String> = order.iter().map(|&i| data[i as usize].clone()).collect();
+                g.op(format!("fcmp {} rel=other", line(&nshape, &nd)));
+                let nf: Vec<String> = nd.iter().map(|t| flip_zero(t)).collect();
+                g.op(format!("fcmp {} rel=other", line(&nshape, &nf)));
+                g.count_n("float.reordered_copy", 2);
+            }
+        }
+    }
+}
+
+// ---- adversarial dimension names (internal names, prefixes of one another, the empty name)
+
+fn gen_names_cases(g: &mut Gen) {
+    for lens in [vec![3], vec![2, 3], vec![2, 2], vec![3, 2, 2], vec![2, 1, 3], vec![2, 3, 1, 2]] {
+        for _round in 0..2 {
+            let d = lens.len();
+            let names = adversarial_names(&mut g.rng, d);
+            let shape: Vec<(&'static str, usize)> = names.iter().zip(lens.iter()).map(|(n, l)| (*n, *l)).collect();
+            gen_case_sized(g, &shape, true, 24, &[]);
+            g.count("names.adversarial_case");
+            // rename to other adversarial names, and to the current names in another order
+            let fresh = adversarial_names(&mut g.rng, d);
+            for form in ["mut", "owned", "view"] {
+                g.op(format!("rename {} src=t form={}", show_names(&fresh), form));
+            }
+            let mut rotated = names.clone();
+            rotated.rotate_left(1);
+            g.op(format!("rename {} src=t form=mut", show_names(&rotated)));
+            g.op(format!("rename {} src=a:{} form=view", show_names(&fresh), show_names(&rotated)));
+            g.count_n("names.rename", 5);
+            // reshape targets reusing the current names: same / reversed order, other lengths
+            let n: usize = lens.iter().product();
+            let mut alt: Vec<Vec<usize>> = factorizations(n, d).into_iter().filter(|f| f.len() == d && *f != lens).collect();
+            g.rng.shuffle(&mut alt);
+            alt.truncate(3);
+            let mut reversed = names.clone();
+            reversed.reverse();
+            for tl in alt {
+                for order in [&names, &reversed] {
+                    let tshape: Vec<(&str, usize)> = order.iter().zip(tl.iter()).map(|(n, l)| (*n, *l)).collect();
+                    for form in ["mut", "owned"] {
+                        g.op(format!("reshape {} form={}", show_shape(&tshape), form));
+                        g.count("names.reshape_reusing_names");
+                    }
+                }
+            }
+            // same lengths, names reversed (a pure renaming done by reshape)
+            let tshape: Vec<(&str, usize)> = reversed.iter().zip(lens.iter()).map(|(n, l)| (*n, *l)).collect();
+            g.op(format!("reshape {} form=mut", show_shape(&tshape)));
+            // orderings that replace one name by another adversarial name the tensor lacks
+            let others: Vec<&str> = ADVERSARIAL_NAMES.iter().copied().filter(|n| !names.contains(n)).collect();
+            for k in 0..d {
+                let mut bad = names.clone();
+                bad[k] = *g.rng.pick(&others);
+                let op = *g.rng.pick(&["reorder", "transpose"]);
+                let form = *g.rng.pick(&["alloc", "mut", "lazy"]);
+                g.op(format!("{} {} src=t form={}", op, show_names(&bad), form));
+                g.count("names.unknown_lookalike");
+            }
+        }
+    }
 }
 
 /// Large cases (also in the quick tier): square 2-D tensors of side 6..12 (the in-place branch
@@ -1068,6 +1188,101 @@ fn from_matrix(toks: &[&str]) -> String {
     }
 }
 
+fn parse_f64(tok: &str) -> f64 {
+    match tok {
+        "nan" => f64::NAN,
+        "inf" => f64::INFINITY,
+        "-inf" => f64::NEG_INFINITY,
+        "-0" => -0.0,
+        other => other.parse::<f64>().expect("f64"),
+    }
+}
+
+fn dump_f<S: TensorRef<f64, D>, const D: usize>(s: &S) -> (Vec<(&'static str, usize)>, Vec<f64>) {
+    let shape = s.view_shape();
+    let lens: Vec<usize> = shape.iter().map(|d| d.1).collect();
+    let data = all_indexes(&lens)
+        .iter()
+        .map(|idx| *s.get_reference(to_array::<usize, D>(idx)).expect("element"))
+        .collect();
+    (shape.to_vec(), data)
+}
+
+/// Equality and similarity of `f64` tensors through every operand form; `rel`: `self` (the very
+/// same object on both sides), `clone`, `other` (the tensor given on the line).  The oracle is
+/// the element type's own `==` applied cell by cell to what the harness reads itself.
+fn fcmp<const D: usize>(t: &Tensor<f64, D>, t2: &Tensor<f64, D>, rel: &str) -> String {
+    outcome(catch(|| {
+        let mut eqs: Vec<(&str, bool)> = vec![];
+        let mut sims: Vec<(&str, bool)> = vec![];
+        match rel {
+            "self" => {
+                let v = t.view();
+                let w = t.clone().view_owned();
+                eqs.push(("t==t", t == t));
+                eqs.push(("v==v", v == v));
+                eqs.push(("&v==&v", &v == &v));
+                eqs.push(("w==w", w == w));
+                eqs.push(("t==v", *t == v));
+                eqs.push(("v==t", v == *t));
+                sims.push(("t~t", t.similar(t)));
+                sims.push(("v~v", v.similar(&v)));
+                sims.push(("t~v", t.similar(&v)));
+                sims.push(("v~t", v.similar(t)));
+            }
+            _ => {
+                let c;
+                let r: &Tensor<f64, D> = if rel == "clone" { c = t.clone(); &c } else { t2 };
+                let (v, rv) = (t.view(), r.view());
+                eqs.push(("t==r", t == r));
+                eqs.push(("v==rv", v == rv));
+                eqs.push(("t==rv", *t == rv));
+                eqs.push(("v==r", v == *r));
+                let own = easy_ml::tensors::dimensions::names_of(&r.shape());
+                let ra = TensorView::from(TensorAccess::from(r, own));
+                eqs.push(("t==access(r)", *t == ra));
+                eqs.push(("v==access(r)", v == ra));
+                sims.push(("t~r", t.similar(r)));
+                sims.push(("v~rv", v.similar(&rv)));
+                sims.push(("t~rv", t.similar(&rv)));
+                sims.push(("v~r", v.similar(r)));
+                sims.push(("t~access(r)", t.similar(&ra)));
+            }
+        }
+        // the oracle
+        let other: &Tensor<f64, D> = if rel == "other" { t2 } else { t };
+        let (ls, ld) = dump_f(t);
+        let (rs, rd) = dump_f(other);
+        let cells = |a: &[f64], b: &[f64]| a.len() == b.len() && a.iter().zip(b.iter()).all(|(x, y)| x == y);
+        let eq_oracle = ls == rs && cells(&ld, &rd);
+        let rlens: Vec<usize> = rs.iter().map(|d| d.1).collect();
+        let idxs: Vec<u64> = (0..rd.len() as u64).collect();
+        let sim_oracle = permutations(D).iter().any(|perm| {
+            let (nl, order) = reordered_data(&rlens, &idxs, perm);
+            let nshape: Vec<(&'static str, usize)> = perm.iter().zip(nl.iter()).map(|(&p, &l)| (rs[p].0, l)).collect();
+            let nd: Vec<f64> = order.iter().map(|&i| rd[i as usize]).collect();
+            nshape == ls && cells(&nd, &ld)
+        });
+        let all_eq = eqs.iter().all(|(_, b)| *b == eq_oracle);
+        let all_sim = sims.iter().all(|(_, b)| *b == sim_oracle);
+        if all_eq && all_sim {
+            format!("eq={} sim={}", eq_oracle, sim_oracle)
+        } else {
+            let show = |v: &[(&str, bool)]| v.iter().map(|(n, b)| format!("{}:{}", n, b)).collect::<Vec<_>>().join(",");
+            format!("forms-disagree eq=[{}] sim=[{}] oracle eq={} sim={}", show(&eqs), show(&sims), eq_oracle, sim_oracle)
+        }
+    }))
+}
+
+enum AnyF {
+    None,
+    D0(Tensor<f64, 0>), D1(Tensor<f64, 1>), D2(Tensor<f64, 2>), D3(Tensor<f64, 3>),
+}
+
+fn parse_fdata(s: &str) -> Vec<f64> {
+    split_comma(s).iter().map(|t| parse_f64(t)).collect()
+}
+
 enum AnyT {
     None,
     D0(Tensor<u64, 0>), D1(Tensor<u64, 1>), D2(Tensor<u64, 2>), D3(Tensor<u64, 3>),
@@ -1120,16 +1335,61 @@ fn step_d<const D: usize>(t: &Tensor<u64, D>, toks: &[&str]) -> String {
 
 pub struct Runner {
     t: AnyT,
+    f: AnyF,
 }
 
 impl Runner {
     pub fn new() -> Runner {
-        Runner { t: AnyT::None }
+        Runner { t: AnyT::None, f: AnyF::None }
     }
 
     pub fn step(&mut self, toks: &[&str]) -> String {
         match toks {
+            ["@", "f", shape_s, data_s] => {
+                let shape = parse_shape(shape_s);
+                let data = parse_fdata(data_s);
+                macro_rules! mkf {
+                    ($D:literal, $V:ident) => {{
+                        let s: [(&'static str, usize); $D] = shape_array(&shape);
+                        match catch(|| Tensor::from(s, data)) {
+                            Ok(t) => { self.f = AnyF::$V(t); "ok".to_string() }
+                            Err(k) => { self.f = AnyF::None; panic_str(k) }
+                        }
+                    }};
+                }
+                self.t = AnyT::None;
+                match shape.len() {
+                    0 => mkf!(0, D0), 1 => mkf!(1, D1), 2 => mkf!(2, D2), 3 => mkf!(3, D3),
+                    _ => "bad-op".into(),
+                }
+            }
+            ["fcmp", shape_s, data_s, rest @ ..] => {
+                let shape = parse_shape(shape_s);
+                let data = parse_fdata(data_s);
+                let rel = opt_arg("rel", rest).unwrap_or("other");
+                macro_rules! go {
+                    ($D:literal, $t:expr) => {{
+                        if shape.len() != $D {
+                            "bad-op".to_string()
+                        } else {
+                            let s: [(&'static str, usize); $D] = shape_array(&shape);
+                            match catch(|| Tensor::from(s, data)) {
+                                Ok(t2) => fcmp($t, &t2, rel),
+                                Err(k) => panic_str(k),
+                            }
+                        }
+                    }};
+                }
+                match &self.f {
+                    AnyF::None => "no-tensor".into(),
+                    AnyF::D0(t) => go!(0, t),
+                    AnyF::D1(t) => go!(1, t),
+                    AnyF::D2(t) => go!(2, t),
+                    AnyF::D3(t) => go!(3, t),
+                }
+            }
             ["@", "t", shape_s, data_s] => {
+                self.f = AnyF::None;
                 let shape = parse_shape(shape_s);
                 let data = parse_data(data_s);
                 macro_rules! mk {
